@@ -30,6 +30,7 @@
 #include "snoopy.h"
 #include "configuration.h"
 #include "message.h"
+#include "util/file-snoopy.h"
 
 #include <limits.h>
 #include <stdio.h>
@@ -83,7 +84,8 @@ int snoopy_output_fileoutput (char const * const logMessage, char const * const 
     record[0].iov_len  = strlen(logMessage);
     record[1].iov_base = "\n";
     record[1].iov_len  = 1;
-    charCount = writev(fd, record, 2);
+    // (without letting a SIGXFSZ - file at the caller's file size limit - or a SIGPIPE - reader of a FIFO gone - through to the caller)
+    charCount = snoopy_util_file_writevNoSignal(fd, record, 2);
     close(fd);
     return (int) charCount;
 }
